@@ -5,8 +5,8 @@ import json, os, re, shutil, sys, glob
 VERIF = os.path.dirname(os.path.dirname(os.path.abspath(__file__)))
 for pid in sys.argv[1:]:
     for L in "AB":
-        src = "/tmp/wt6-%s/SEEDED/%s" % (pid, L)
-        dst = os.path.join(VERIF, "seeded", "s6-%s-%s" % (pid, L.lower()))
+        src = "/tmp/wt7-%s/SEEDED/%s" % (pid, L)
+        dst = os.path.join(VERIF, "seeded", "s7-%s-%s" % (pid, L.lower()))
         if not os.path.isdir(src):
             print("missing", src); continue
         os.makedirs(dst, exist_ok=True)
@@ -18,11 +18,11 @@ for pid in sys.argv[1:]:
         pl = {}
         m = re.search(r"([A-Za-z0-9_/]+/tests/seeded_demo\w*\.rs)", readme)
         if m:
-            pl["dest"] = m.group(1).replace("/tmp/wt6-%s/" % pid, "").lstrip("/")
+            pl["dest"] = m.group(1).replace("/tmp/wt7-%s/" % pid, "").lstrip("/")
         else:
             m = re.search(r"([A-Za-z0-9_/]+/src/[A-Za-z0-9_/]*seeded_demo\w*\.rs)", readme)
             if m:
-                pl["dest"] = m.group(1).replace("/tmp/wt6-%s/" % pid, "").lstrip("/")
+                pl["dest"] = m.group(1).replace("/tmp/wt7-%s/" % pid, "").lstrip("/")
         m = re.search(r"-p\s+(inkayaku_\w+)", readme)
         if m:
             pl["crate"] = m.group(1)
@@ -40,5 +40,5 @@ for pid in sys.argv[1:]:
         json.dump(pl, open(os.path.join(dst, "placement.json"), "w"), indent=1)
         mp = os.path.join(dst, "meta.json")
         if not os.path.exists(mp):
-            json.dump({"property": pid, "round": 6, "summary": "", "detected_by": "", "initially_missed": None, "verified": ""}, open(mp, "w"), indent=1)
+            json.dump({"property": pid, "round": 7, "summary": "", "detected_by": "", "initially_missed": None, "verified": ""}, open(mp, "w"), indent=1)
         print(dst, pl, demo)
